@@ -36,6 +36,7 @@ func runC03(c *Ctx) {
 	c02R2(c, "C02.R2")
 	c02R3(c, "C02.R3")
 	c02R5(c, "C02.R5")
+	c02R6(c, "C02.R6")
 	c.importing = ""
 }
 
